@@ -128,7 +128,15 @@ def run(ctx):
         if n % 9 == 0:
             # make sure every constant and function shows up often
             c = ('const', gen.pick(rng, A.CONSTS))
-            e = ('bin', '<', ('bin', '+', tg.num(1), c), tg.num(1)) if t == gen.BOOL else e
+            if rng.random() < 0.2:
+                c = A.num(gen.pick(rng, ('1e999', '1e308', '1e-400', '0.0', '007')))  # overflowing / degenerate spellings
+            k9 = rng.random()
+            if k9 < 0.35:
+                c = A.neg(c)  # a sign directly on a constant
+            elif k9 < 0.45:
+                c = A.neg(A.neg(c))
+            if t == gen.BOOL:
+                e = ('bin', '<', ('bin', '+', tg.num(1), c), tg.num(1)) if rng.random() < 0.6 else ('bin', gen.pick(rng, ('>', '<=', '=')), tg.num(1), c)
         if not A.renderable(e):
             ctx.skip('not-renderable')
             continue
